@@ -466,7 +466,7 @@ func check(prop, tier string) int {
 		budget, _ = strconv.Atoi(v)
 	}
 	cov := map[string]any{}
-	evals, nontrivial := 0, 0
+	evals, nontrivial, corpusRuns := 0, 0, 0
 	var sigFiles []string
 	var simNs, steps, decisions, enabledSum int64
 	strategies, faults, probes := map[string]int{}, map[string]int{}, map[string]int{}
@@ -487,6 +487,7 @@ func check(prop, tier string) int {
 			eRuns += w.Runs + w.CorpusRuns
 			if !p.Race {
 				evals += w.Runs + w.CorpusRuns
+				corpusRuns += w.CorpusRuns
 				nontrivial += w.Nontrivial
 				sigFiles = append(sigFiles, w.SigFile)
 				simNs += w.SimTimeNs
@@ -541,6 +542,8 @@ func check(prop, tier string) int {
 	cov["evaluations"] = evals
 	cov["distinct_nontrivial"] = distinct
 	cov["nontrivial_runs"] = nontrivial
+	cov["corpus_cases"] = corpusRuns
+	cov["seeded_runs"] = evals - corpusRuns
 	cov["rule"] = cfg.Rule
 	if len(samples) == 0 {
 		samples = append(samples, json.RawMessage(`"no non-trivial run in this invocation"`))
